@@ -11,6 +11,8 @@ import tlegen
 
 ID = "C01"
 LEAN_TARGETS = ["PV.Props.C01"]
+# further files of property theorems (all are obligations): convergence / root-closeness stretch theorems
+EXTRA_PROPS = ['PV.Props.C01Kepler']
 # T-C tie (DESIGN 2.3): kernels traced from the current source are proved equal to the model over the reals
 EQUIV = {'PV.Equiv.Look': ['kep2xyz_eq']}
 RULE = ("element sets from the structured TLE generator (regimes: operational LEO, near-earth incl. e<=1e-4, i near 0/180, "
